@@ -146,6 +146,21 @@ pub fn v_g2s(g: &G) -> String {
         Err(_) => "panic".into(),
     }
 }
+/// every way geo-traits offers to read coordinate i (< dim) of the same value gives the same bits
+fn coord_routes_disagree<C: CoordTrait<T = f64>>(c: &C, n: usize) -> Option<String> {
+    for i in 0..n {
+        let a = c.nth_or_panic(i).to_bits();
+        let b = c.nth(i).map(|v| v.to_bits());
+        let u = unsafe { c.nth_unchecked(i) }.to_bits();
+        if b != Some(a) || u != a {
+            return Some(format!("index {} of {}: nth_or_panic {:016x}, nth {:?}, nth_unchecked {:016x}", i, n, a, b, u));
+        }
+    }
+    if n >= 2 && (c.x().to_bits() != c.nth_or_panic(0).to_bits() || c.y().to_bits() != c.nth_or_panic(1).to_bits()) {
+        return Some("x()/y() differ from indices 0/1".into());
+    }
+    None
+}
 /// geo-traits view of a point: dimension count and every coordinate below it
 pub fn v_dims(d: Dim, p: &P) -> String {
     let r = catch_unwind(AssertUnwindSafe(|| {
@@ -153,16 +168,25 @@ pub fn v_dims(d: Dim, p: &P) -> String {
             Dim::Xy => {
                 let q = mk_p(p);
                 let n = PointTrait::dim(&q).size();
+                if let Some(bad) = coord_routes_disagree(&q, n).or_else(|| coord_routes_disagree(&&q, n)).or_else(|| PointTrait::coord(&q).and_then(|c| coord_routes_disagree(&c, n))) {
+                    return format!("coordinate routes disagree: {}", bad);
+                }
                 (n, (0..n).map(|i| CoordTrait::nth_or_panic(&q, i)).collect())
             }
             Dim::Xym => {
                 let q = mk_pm(p);
                 let n = PointTrait::dim(&q).size();
+                if let Some(bad) = coord_routes_disagree(&q, n).or_else(|| coord_routes_disagree(&&q, n)).or_else(|| PointTrait::coord(&q).and_then(|c| coord_routes_disagree(&c, n))) {
+                    return format!("coordinate routes disagree: {}", bad);
+                }
                 (n, (0..n).map(|i| CoordTrait::nth_or_panic(&q, i)).collect())
             }
             Dim::Xyzm => {
                 let q = mk_pz(p);
                 let n = PointTrait::dim(&q).size();
+                if let Some(bad) = coord_routes_disagree(&q, n).or_else(|| coord_routes_disagree(&&q, n)).or_else(|| PointTrait::coord(&q).and_then(|c| coord_routes_disagree(&c, n))) {
+                    return format!("coordinate routes disagree: {}", bad);
+                }
                 (n, (0..n).map(|i| CoordTrait::nth_or_panic(&q, i)).collect())
             }
         };
